@@ -1234,7 +1234,11 @@ void KMeans(matrix* m,
   UIVectorResize(cluster_labels, m->row);
   
   it = 0;
-  while(shouldStop(centroids, oldcentroids, it, 100) == 0)
+  /* at least one pass: before it "the previous centroids" are the zeros the matrix
+   * was created with, and start centroids within the tolerance of the origin would
+   * stop the algorithm before any object is labelled
+   */
+  while(it == 0 || shouldStop(centroids, oldcentroids, it, 100) == 0)
   {
     #ifdef DEBUG
     clock_t t = clock();
